@@ -95,7 +95,10 @@ where
         // A run length follows a context iff the previous context is also in the table.
         if sym > 0 && alphabet[sym - 1] {
             let i = sym + 1;
-            let len = alphabet[i..].iter().position(|&a| !a).unwrap_or(0);
+            let len = alphabet[i..]
+                .iter()
+                .position(|&a| !a)
+                .unwrap_or(alphabet.len() - i);
 
             // SAFETY: `len < ALPHABET_SIZE`.
             write_u8(writer, len as u8)?;
